@@ -27,7 +27,7 @@ KNOWN_IDS = ["pow-tower-timeout", "deep-expression-recursionerror", "nonfinite-n
              "short-tuple-assignment-indexerror", "syntaxerror-for-valid-python"]
 
 
-RSS_GROW_MB = 384         # "terminates promptly" also bounds the memory one transpilation of a small input may claim
+RSS_GROW_MB = 384         # "terminates promptly" also bounds the memory one transpilation of a small input (<= 64 KiB) may claim
 
 
 def bucket(cpu_ms: int, outcome: str, rss_grow_mb: int = 0) -> str:
@@ -44,7 +44,7 @@ def to_trace(job: dict, rec: dict) -> dict:
             "inp": {"python": py, "tags": R.tags_of(job["src"], py)},
             "audit": [{"ev": a[0], "grp": a[0].split(".")[0], "key": a[1], "kind": a[2], "n": a[3]} for a in rec["audit"]],
             "fin": {"canary": bool(rec["canary"]), "snap": bool(rec["snap_same"]), "env": bool(rec["env_same"])},
-            "out": {"class": rec["outcome"], "cls": rec["cls"], "bucket": bucket(rec["cpu_ms"], rec["outcome"], rec.get("rss_grow_mb", 0))}}
+            "out": {"class": rec["outcome"], "cls": rec["cls"], "bucket": bucket(rec["cpu_ms"], rec["outcome"], rec.get("rss_grow_mb", 0) if len(job["src"]) <= 65536 else 0)}}
 
 
 def model_check(run) -> None:
